@@ -68,6 +68,8 @@ def run_job(job, i, confirm=True):
             sh(["git", "-C", repo, "clean", "-fdq"])
     if conf.get("confirmed") or (not confirm and det and "error" not in det):
         dst = os.path.join(VERIF, "seeded", sid)
+        if os.environ.get("SEEDPAR_NOWRITE"):
+            return sid, conf.get("confirmed"), {c: (v.get("exit"), (v.get("lines") or [""])[-1][:100]) for c, v in det.items()} if "error" not in det else det
         if os.path.realpath(dst) == os.path.realpath(d):
             # re-evaluation of a kept change in place: only the verdicts are refreshed
             old = json.load(open(os.path.join(dst, "meta.json")))
